@@ -397,6 +397,11 @@ where
         assert!(b[0] != E::ZERO, "cannot divide polynomial by zero");
     }
 
+    // the empty slice is the zero polynomial (this is what remove_leading_zeros returns for it)
+    if a.is_empty() {
+        return Vec::new();
+    }
+
     let mut result = vec![E::ZERO; apos - bpos + 1];
     for i in (0..result.len()).rev() {
         let quot = a[apos] / b[bpos];
